@@ -390,7 +390,7 @@ fn exercise(dm: &DecodedMap, text: &str) -> Result<(), String> {
     Ok(())
 }
 pub fn decode_mutants() -> Report {
-    let bound_s = format!("9 seed documents (regular with names / contents / root / ignoreList / rangeMappings, Hermes with metadata, index with nested and unresolved sections, junk header) and every single-byte {} of each: every decoding and detection entry point (slice, reader, data URL, reference discovery), then every query / serialisation / rewrite / flatten on whatever is returned", if crate::deep() { "replacement by one of 24 bytes, deletion and duplication" } else { "replacement by one of 12 bytes, deletion and duplication" });
+    let bound_s = format!("9 seed documents (regular with names / contents / root / ignoreList / rangeMappings, Hermes with metadata, index with nested and unresolved sections, junk header) and every single-byte {} of each: every decoding and detection entry point (slice, reader, data URL, reference discovery), then every query / serialisation / rewrite / flatten on whatever is returned", if crate::deep() { "replacement by one of 24 bytes or by U+20AC / U+1F600, deletion and duplication" } else { "replacement by one of 12 bytes or by U+20AC / U+1F600, deletion and duplication" });
     let bound = bound_s.as_str();
     let mut cases = 0u64;
     let docs: Vec<&str> = vec![
@@ -422,15 +422,19 @@ pub fn decode_mutants() -> Report {
     };
     for doc in &docs {
         let bytes = doc.as_bytes();
-        cases += 1; crate::witness(sourcemap::decode_slice(bytes).is_ok());
+        cases += 1;
         if let Some(c) = check(bytes, "seed document") { return r("decode_mutants", bound, cases, Some(c)); }
+        crate::witness(sourcemap::decode_slice(bytes).is_ok());
         for i in 0..bytes.len() {
             let mut variants: Vec<Vec<u8>> = vec![];
             for &a in &alphabet { if a != bytes[i] { let mut v = bytes.to_vec(); v[i] = a; variants.push(v); } }
             let mut v = bytes.to_vec(); v.remove(i); variants.push(v);
             let mut v = bytes.to_vec(); v.insert(i, bytes[i]); variants.push(v);
-            for v in &variants { cases += 1; if sourcemap::decode_slice(v).is_ok() { crate::witness(true); }
-                if let Some(c) = check(v, &format!("document with byte {i} changed:")) { return r("decode_mutants", bound, cases, Some(c)); } }
+            // a character beyond Latin-1 / beyond the BMP in place (inside "mappings" it is a foreign character of a VLQ text)
+            for ch in ["\u{20ac}", "\u{1f600}"] { let mut v = bytes[..i].to_vec(); v.extend_from_slice(ch.as_bytes()); v.extend_from_slice(&bytes[i + 1..]); variants.push(v); }
+            for v in &variants { cases += 1;
+                if let Some(c) = check(v, &format!("document with byte {i} changed:")) { return r("decode_mutants", bound, cases, Some(c)); }
+                if sourcemap::decode_slice(v).is_ok() { crate::witness(true); } }
         }
     }
     r("decode_mutants", bound, cases, None)
